@@ -6,6 +6,7 @@ import (
 	"golang.org/x/tools/go/packages"
 	"fmt"
 	"go/ast"
+	"go/types"
 	"os"
 	"path/filepath"
 	"strings"
@@ -215,7 +216,26 @@ func (p *Prog) embeddedFile(pkgSuffix, varName string) (string, string, error) {
 	if nil == pk {
 		return "", "", fmt.Errorf("package %s not found", pkgSuffix)
 	}
-	return p.embeddedFileIn(pk, varName)
+	text, path, err := p.embeddedFileIn(pk, varName)
+	if nil != err {
+		/* Under another name, in whichever package: the module's only
+		embedded file, if there is only one. */
+		var hits [][2]string
+		for _, q := range p.Pkgs {
+			for _, n := range q.Types.Scope().Names() {
+				if _, isVar := q.Types.Scope().Lookup(n).(*types.Var); !isVar {
+					continue
+				}
+				if t, pa, e := p.embeddedFileIn(q, n); nil == e {
+					hits = append(hits, [2]string{t, pa})
+				}
+			}
+		}
+		if 1 == len(hits) {
+			return hits[0][0], hits[0][1], nil
+		}
+	}
+	return text, path, err
 }
 
 // embeddedFileIn: the same, in a given package.
